@@ -86,7 +86,7 @@ pub const NAMINGS: [&str; 4] = ["num", "numd", "ts", "tsd"];
 
 /// TimestampsDirect + append onto `.restart-NNNN` siblings: generated again since the `fix:`
 /// (transition switch: FVH_LIFT_TSD=0 keeps the old guard)
-fn lift_tsd() -> bool { std::env::var("FVH_LIFT_TSD").as_deref() == Ok("1") }
+fn lift_tsd() -> bool { std::env::var("FVH_LIFT_TSD").as_deref() != Ok("0") }
 
 pub fn gen_c01(tier: &str, seed: u64) -> Vec<Vec<String>> {
     let mut root = Rng::new(seed ^ 0xC01);
